@@ -370,10 +370,10 @@ def nat_list(l):
     return "[" + "; ".join(str(int(x)) for x in l) + "]"
 
 
-def emit_tables(hexT, hexE, quadS, quadE, K):
+def emit_tables(hexT, hexE, quadS, quadE, K, extra_import=""):
     o = ["(* GENERATED by harness/props/C14.py from the working tree of /repo -- do not edit *)",
          "From Coq Require Import List ZArith Bool.",
-         "From CB Require Import Proofs.C14_IEval.",
+         "From CB Require Import Base.Vec3 Model.C14_Quality%s." % extra_import,
          "Import ListNotations.",
          "(* corner lists returned by HexCell.get_side_points(i), i = 0..5 *)",
          "Definition hex_T : list (list nat) := [%s]." % "; ".join(nat_list(s) for s in hexT),
@@ -641,7 +641,12 @@ class C14(Prop):
         "model: arccos written as 2*atan(sqrt((1-x)/(1+x))) (equal to acos on (-1,1]); np.clip of the cosine is the "
         "identity on the reals (Cauchy-Schwarz) and is not modelled; numpy float arithmetic modelled as real arithmetic",
     ]
-    partial = []
+    partial = [
+        "C14_renumber_quad_partial: quadrilateral renumbering proved for the generator 0->1->2->3->0 under the "
+        "hypothesis that the corner normals at corners 0 and 1 are positive multiples of each other; missing: "
+        "deriving it from planarity+convexity for all corners and iterating to the four shifts "
+        "(full statement C14_renumber_quad_stmt)",
+    ]
 
     def __init__(self):
         self._tab = None
@@ -749,7 +754,7 @@ class C14(Prop):
             chunk = lines[s::nsh]
             # the tables are inlined (same text as Gen/C14/Tables.v) so that the case files do not depend
             # on a .vo that a concurrent run may be regenerating
-            body = [emit_tables(t["hexT"], t["hexE"], t["quadS"], t["quadE"], t["K"]),
+            body = [emit_tables(t["hexT"], t["hexE"], t["quadS"], t["quadE"], t["K"], " Proofs.C14_IEval"),
                     "Definition cases : list (nat * bool) := [", ";\n".join(chunk), "].",
                     "Eval vm_compute in (map fst (filter (fun c => negb (snd c)) cases))."]
             shards.append(("cases_%d" % s, "\n".join(body) + "\n"))
